@@ -31,7 +31,7 @@ ASSUMPTIONS = ["os-level events issued through Python are all seen by the audit 
                "'complete' = the file decompresses (with its .ch) to / equals the source bytes",
                "a failure is an exception raised while one chunk is being (de)compressed"]
 REQUIRED = {"compress_faults_injected": 20, "decompress_faults_injected": 20, "remove_events_judged": 4, "stale_bin_runs": 9, "twin_sync_selectors": 50, "twin_selectors": 200,
-            "roundtrips": 4, "entry_paths": 8, "twin_inconsistent_metadata": 3, "explicit_companions": 4, "silent_write_faults_injected": 20, "same_base_name_entries": 12, "noncanonical_entries": 18}
+            "roundtrips": 4, "entry_paths": 8, "twin_inconsistent_metadata": 3, "explicit_companions": 4, "silent_write_faults_injected": 20, "same_base_name_entries": 12, "noncanonical_entries": 18, "scratch_copies": 5}
 CASE_TIMEOUT = 200.0
 
 
@@ -605,6 +605,43 @@ def run_case(case):
                     sr.close()
         except Exception as e:
             res.exception("entry:same-base-name:exception", e, f"{kind}: {name_a} / {name_b}")
+        # ---- the copy decompressed to a scratch folder is the same recording through the reader - also when the scratch folder has been used
+        #      before: two sessions hold a recording of the SAME file name (other length, other gains); the first is decompressed to scratch, its
+        #      large scratch .bin is removed (or everything is, or nothing was there), then the second goes through the same scratch folder
+        rec_c = G.make(rng, kind=kind, ns=ns + int(rng.integers(20, 300)), gains=G.random_gains(rng))
+        order_c = np.r_[rec_c.order, rec_c.n]
+        cal_c = (rec_c.raw[:, order_c].astype(np.float32) * rec_c.s2v[order_c].astype(np.float32)[None, :])
+        scr = d / "shared-scratch"
+        for hist in ("first-use", "earlier-bin-removed", "emptied"):
+            rcs = {"first-use": [(rec, cal, "sessA")], "earlier-bin-removed": [(rec_c, cal_c, "sessB"), (rec, cal, "sessA")],
+                   "emptied": [(rec_c, cal_c, "sessB"), (rec, cal, "sessA")]}[hist]
+            shutil.rmtree(scr, ignore_errors=True)
+            for step, (rc, cl, sess) in enumerate(rcs):
+                lab = f"{kind}: decompress_to_scratch into a scratch folder with history '{hist}', recording {step + 1} of {len(rcs)}"
+                try:
+                    wb = d / "scratch-sessions" / hist / sess
+                    bb = G.write(rc, wb)
+                    srx = spikeglx.Reader(bb)
+                    srx.compress_file(keep_original=False, chunk_duration=0.003)
+                    srx.close()
+                    src = spikeglx.Reader(bb.with_suffix(".cbin"))
+                    out = Path(src.decompress_to_scratch(scratch_dir=scr))
+                    res.count("scratch_copies")
+                    res.check(out.read_bytes() == rc.raw.tobytes(), "scratch-copy:bytes", f"{lab}: the scratch .bin is not the recording byte for byte")
+                    for path in (out, out.with_suffix(".meta")):
+                        srs = spikeglx.Reader(path)
+                        same = srs.shape == src.shape and np.array_equal(srs[:, :], src[:, :]) and srs.fs == src.fs and np.array_equal(srs.sample2volts, src.sample2volts)
+                        res.check(same and np.allclose(srs[:, :], cl, rtol=2.0 ** -22, atol=0), "scratch-copy:not-the-same-recording",
+                                  f"{lab}: Reader({path.name}) of the scratch copy has shape {srs.shape}, the compressed recording {src.shape}; values equal: {same}")
+                        srs.close()
+                    src.close()
+                    if step + 1 < len(rcs):
+                        if hist == "earlier-bin-removed":
+                            out.unlink()
+                        else:
+                            shutil.rmtree(scr)
+                except Exception as e:
+                    res.exception("scratch-copy:exception", e, lab)
         nt = 1
         res.sig = f"entry-{kind}"
     res.nontrivial = nt > 0
